@@ -19,6 +19,9 @@ thread_local! {
     /// 0 = real environment; otherwise every variable read inside `generate` gets a value that is
     /// a pure function of (salt, name) — so an environment dependence is found without guessing names
     static TL_ENV_SALT: Cell<u64> = const { Cell::new(0) };
+    /// 0 = the real CPU affinity mask; otherwise `sched_getaffinity` inside `generate` reports
+    /// this many CPUs (what `std::thread::available_parallelism` is computed from)
+    static TL_SIM_CPUS: Cell<u32> = const { Cell::new(0) };
 }
 
 static GETRANDOM_CALLS: AtomicU64 = AtomicU64::new(0);
@@ -142,6 +145,36 @@ pub unsafe extern "C" fn getenv(name: *const u8) -> *mut u8 {
         e = e.add(1);
     }
     std::ptr::null_mut()
+}
+
+static AFFINITY_READS_IN_GENERATE: AtomicU64 = AtomicU64::new(0);
+
+/// std's `available_parallelism` reads the affinity mask through this symbol.
+#[no_mangle]
+pub unsafe extern "C" fn sched_getaffinity(pid: i32, cpusetsize: usize, mask: *mut u8) -> i32 {
+    let in_gen = TL_IN_GENERATE.try_with(|f| f.get()).unwrap_or(false);
+    if in_gen {
+        AFFINITY_READS_IN_GENERATE.fetch_add(1, Ordering::SeqCst);
+        let n = TL_SIM_CPUS.try_with(|c| c.get()).unwrap_or(0) as usize;
+        if n != 0 && !mask.is_null() {
+            for i in 0..cpusetsize {
+                *mask.add(i) = 0;
+            }
+            for bit in 0..n.min(cpusetsize * 8) {
+                *mask.add(bit / 8) |= 1u8 << (bit % 8);
+            }
+            return 0;
+        }
+    }
+    let r = syscall(204, pid as i64, cpusetsize, mask);
+    if r < 0 {
+        return -1;
+    }
+    let written = r as usize;
+    for i in written..cpusetsize {
+        *mask.add(i) = 0;
+    }
+    0
 }
 
 static THREADS_SPAWNED_IN_GENERATE: AtomicU64 = AtomicU64::new(0);
